@@ -40,6 +40,7 @@ def make_kernel(ctx, kind, N, terms, sweeps, tmode, in_order):
     Ts = [0] * sweeps if tmode == 'zero' else [ctx.real_var('T%d' % t, 0) for t in range(sweeps)]
     isel = ctx.int_var('init', 0, 2 ** N - 1)
     fn = FN[kind]
+    counter = [0]
 
     def dE_true(state, i):
         tot = 0
@@ -73,6 +74,7 @@ def make_kernel(ctx, kind, N, terms, sweeps, tmode, in_order):
                     i, j = t; nb[i].append(j); nb[j].append(i); Jl[i].append(v); Jl[j].append(v)
             idx = [0]
             for i in range(1, N): idx.append(idx[-1] + len(nb[i - 1]))
+            narr = (hh, [len(x) for x in nb], [x for l in nb for x in l], [x for l in Jl for x in l], idx)
             args = [N, p_state, mkarr(it, hh, 8, 'h'), mkarr(it, [len(x) for x in nb], 4, 'nn'),
                     mkarr(it, [x for l in nb for x in l], 4, 'nb'), mkarr(it, [x for l in Jl for x in l], 8, 'J'),
                     mkarr(it, idx, 8, 'index'), sweeps, p_Ts, in_order, rng]
@@ -82,6 +84,7 @@ def make_kernel(ctx, kind, N, terms, sweeps, tmode, in_order):
             for t in tl[:-1]: index.append(index[-1] + len(t))
             sub = [[k for k, t in enumerate(tl) if i in t] for i in range(N)]
             subp = [mkarr(it, [len(s)] + s, 8, 'sub%d' % i) for i, s in enumerate(sub)]
+            narr = ([len(t) for t in tl], [x for t in tl for x in t], [c[t] for t in tl], index, [[len(s)] + s for s in sub])
             args = [N, p_state, mkarr(it, [len(t) for t in tl], 4, 'nc'), mkarr(it, [x for t in tl for x in t], 4, 'terms'),
                     mkarr(it, [c[t] for t in tl], 8, 'coup'), mkarr(it, index, 8, 'index'), mkarr(it, subp, 8, 'subgraphs'),
                     sweeps, p_Ts, in_order, rng]
@@ -91,13 +94,32 @@ def make_kernel(ctx, kind, N, terms, sweeps, tmode, in_order):
             return ('UB', str(e), init)
         final = [p_state.obj.cells[4 * i][1] for i in range(N)]
         leaks = [o.name for o in it.live if o.kind == 'heap' and not o.freed and o.name.startswith('heap')]
-        return ('ok', init, final, list(it.events), dict(it.defs), leaks, sorted(it.called), dict(it.checks), it.steps)
+        return ('ok', init, final, list(it.events), dict(it.defs), leaks, sorted(it.called), dict(it.checks), it.steps, narr)
 
     def check(res):
         if res[0] == 'UB':
             return [Ob('no undefined behaviour in the kernel', False, info={'ub': res[1], 'init': res[2]}, sig='UB: ' + res[1].split(':')[0])]
-        _, init, final, events, defs, leaks, called, checks, nsteps = res
+        _, init, final, events, defs, leaks, called, checks, nsteps, narr = res
         obs = [Ob('kernel frees what it allocates', not leaks, info={'leaks': leaks})]
+        counter[0] += 1
+        if ctx.concrete is None and (counter[0] <= 15 or counter[0] % 10 == 0):
+            from .. import native
+            from ..symx import concretize
+            w = ctx.witness(ctx.pc_of_current)
+            if w is not None:
+                ev = lambda x: concretize(x, w, ctx.names) if isinstance(x, Sym) else x
+                sc = native.script_from_events(events, w, ctx.names, defs)
+                if sc is None:
+                    obs.append(Ob('ENGINE: native kernel replay', None, info={'detail': 'exp underflow on this witness'}))
+                else:
+                    try:
+                        conc = [[(float(ev(x)) if isinstance(x, Sym) else x) if not isinstance(x, list) else x for x in a] for a in narr]
+                        fin, info = native.run_kernel(kind, N, init, conc, sweeps, [ev(t) for t in Ts], in_order, sc[0], sc[1])
+                        ok = fin == [int(ev(x)) for x in final] and not info['overran'] and info['used_d'] == len(sc[0]) and info['used_k'] == len(sc[1])
+                        obs.append(Ob('ENGINE: native kernel (real C, scripted draws) agrees with the interpreter on this path', True if ok else False,
+                                      info={'native': fin, 'interpreter': [str(x) for x in final], 'info': info, 'witness': {k: str(v) for k, v in list(w.items())[:10]}}))
+                    except Exception as e:      # noqa
+                        obs.append(Ob('ENGINE: native kernel replay', False, info={'detail': '%s: %s' % (type(e).__name__, e)}))
         steps = []; cur = None
         for ev in events:
             if ev[0] == 'pload': cur = []; steps.append(cur)
